@@ -1,10 +1,29 @@
-"""Translator group MpiC16 (tie T1 of property C16): sc_mpi_sizeof of /repo/src/sc_mpi.c in the configuration
-without MPI.  The ordinary c2g rules translate the if-chain; two additions: enumerators that occur as values
-(`SC3_MPI_BYTE`, ...) become the Gallina constants `dt_<name>` whose numbers a small compiled program
-(wrap/consts_c16.c, same headers, same configuration) prints, and the final `SC_ABORT_NOT_REACHED ()` (a call of
-the noreturn sc_abort_verbose) becomes `return sizeof_aborts` with `sizeof_aborts := -1`.  The same program prints the
-numbers of all sc_MPI_<datatype> handles (`h_MPI_INT`, ...) and of a few constants used by the C16 model."""
-import os, subprocess
+"""Translator group MpiC16 (tie T1 of property C16), regenerated from /repo/src/sc_mpi.c in the configuration without MPI.
+
+ * sc_mpi_sizeof: the ordinary c2g rules translate the if-chain; two additions: enumerators that occur as values
+   (`SC3_MPI_BYTE`, ...) become the Gallina constants `dt_<name>` whose numbers a small compiled program
+   (wrap/consts_c16.c, same headers, same configuration) prints, and the final `SC_ABORT_NOT_REACHED ()` (a call of
+   the noreturn sc_abort_verbose) becomes `return sizeof_aborts` with `sizeof_aborts := -1`.  The same program prints the
+   numbers of all sc_MPI_<datatype> handles (`h_MPI_INT`, ...) and of a few constants used by the C16 model.
+ * stub_<name>: the WHOLE BODY of every serial stub that the C16 model covers, translated with slicelib.SliceT (pointers are
+   integers, calls of memcpy / of another stub / of snprintf are ghost outputs <callee>_called, <callee>_arg<i>, a result that
+   is used is the parameter <callee>_ret, `&x` handed to a callee makes x a parameter) plus five local conventions:
+     - enumerators are the constants dt_<name>; those not printed by consts_c16.c are printed by a program that is
+       GENERATED here from the names met in the slices and compiled against the same headers;
+     - `SC_CHECK_ABORT (c, ..)` is not dropped but tracked: the ghost output `ok` (1 at the start) becomes `ok && c`;
+     - `return f (args);` with f an effect; `return *p = v;`; `if ((x = f (..)) < 0)` are split into their two steps;
+     - `displ[0]` is the location displ_0;
+     - a string literal is the number 1 + its index in the generated list `stub_strings` (byte lists, order of first use).
+   stub_gather, stub_gatherv, stub_reduce                         (memcpy_called, dest, src, bytes, returned code)
+   stub_allgather, stub_alltoall, stub_allgatherv, stub_allreduce, stub_reduce_scatter_block, stub_scan
+                                                                    (callee_called, the forwarded arguments, returned code)
+   stub_exscan, stub_bcast, stub_barrier                          returned code (a memcpy would add outputs)
+   stub_type_size, stub_pack_size, stub_pack, stub_unpack         stored *size / *position, the memcpy, the space test
+   stub_comm_size/rank/dup/split/free/group, stub_group_size/rank/free, stub_init_thread      stored output, returned code
+   stub_wait, stub_waitall, stub_testall, stub_waitsome           (ok, stored *flag / *outcount, returned code), loops fuelled
+   stub_error_class, stub_error_string, stub_strings
+coq/C16/MpiGen.v proves that the hand-written model (MpiModel.v) computes exactly these."""
+import os, re, subprocess
 
 
 def register(GROUPS, c2g, incs, REPO, HERE, STRUCTS, Group):
@@ -43,6 +62,168 @@ def register(GROUPS, c2g, incs, REPO, HERE, STRUCTS, Group):
         finally:
             c2g.Translator = saved
         g.add(t, i)
+
+        # ---------------------------------------------------------------- bodies of the serial stubs
+        import slicelib as sl
+        used_enums = set()
+        strings = []
+
+        class S16(sl.SliceT):
+            const_index = False
+            track_abort = False
+
+            def __init__(self, **kw):
+                super().__init__(**kw)
+                self.const_index_locations = S16.const_index
+
+            # every stub returns int: a `return` inside a loop carries a Z (emit_block assumes void)
+            ret_void = property(lambda self: False, lambda self, v: None)
+
+            def expr(self, n, env):
+                if n.get("kind") == "StringLiteral":
+                    # a string literal is the "address" 1 + its index in the generated list stub_strings
+                    import json as _json
+                    v = _json.loads(n["value"])
+                    if v not in strings:
+                        strings.append(v)
+                    return c2g.E(str(1 + strings.index(v)), "Z", True)
+                if n.get("kind") == "DeclRefExpr" and n.get("referencedDecl", {}).get("kind") == "EnumConstantDecl":
+                    used_enums.add(n["referencedDecl"]["name"])
+                    return c2g.E("dt_%s" % n["referencedDecl"]["name"], "Z", True)
+                return super().expr(n, env)
+
+            def abort_cond_of(self, s):
+                """SC_CHECK_ABORT (c, ..) = `(c) ? (void) 0 : sc_abort_verbose (..)`: the node of c, else None"""
+                t = c2g.skip_parens(s)
+                if S16.track_abort and t.get("kind") == "ConditionalOperator" and c2g.tystr(t) == "void" and \
+                        sl.callee_name(sl.strip(t["inner"][2])) in sl.ABORTS and sl.callee_name(sl.strip(t["inner"][1])) is None:
+                    return t["inner"][0]
+                return None
+
+            def assigned(self, s, acc, declared):
+                super().assigned(s, acc, declared)
+                if S16.track_abort and sl.find_nodes(s, lambda n: self.abort_cond_of(n) is not None):
+                    acc.add("ok")
+
+            def referenced(self, s, acc):
+                if s.get("kind") == "ArraySubscriptExpr" and self.fun_name(s) is not None:
+                    self.referenced(s["inner"][1], acc)      # the base is a memory-read function, not a variable
+                    return
+                super().referenced(s, acc)
+
+            def stmts(self, ss, env, K):
+                # SC_CHECK_ABORT (c, ..): the ghost `ok` (1 at the start) becomes ok && c; execution continues
+                if ss and self.abort_cond_of(ss[0]) is not None:
+                    c = self.expr(self.abort_cond_of(ss[0]), env)
+                    return self.assign("ok", c2g.E("(z2b %s) && %s" % (self.lookup(env, "ok"), c.b()), "bool"), env, list(ss[1:]), K)
+                # `if ((x = f (..)) < 0)` is `x = f (..); if (x < 0)`
+                if ss and ss[0].get("kind") == "IfStmt":
+                    c = c2g.skip_parens(ss[0]["inner"][0])
+                    if c.get("kind") == "BinaryOperator" and c.get("opcode") in ("<", "<=", ">", ">=", "==", "!="):
+                        a = c2g.skip_parens(c["inner"][0])
+                        if a.get("kind") == "BinaryOperator" and a.get("opcode") == "=" and sl.strip(a["inner"][0]).get("kind") == "DeclRefExpr":
+                            lhs = dict(kind="ImplicitCastExpr", castKind="LValueToRValue", type=a.get("type"), inner=[a["inner"][0]])
+                            c2 = dict(c, inner=[lhs, c["inner"][1]])
+                            return self.stmts([a, dict(ss[0], inner=[c2] + list(ss[0]["inner"][1:]))] + list(ss[1:]), env, K)
+                # `return *p = v;` is `*p = v; return *p;`
+                if ss and ss[0].get("kind") == "ReturnStmt":
+                    inner = [c for c in ss[0].get("inner", []) if isinstance(c, dict)]
+                    if inner:
+                        a = sl.strip(inner[0])
+                        if a.get("kind") == "BinaryOperator" and a.get("opcode") == "=":
+                            return self.stmts([a, dict(ss[0], inner=[a["inner"][0]])] + list(ss[1:]), env, K)
+                        if a.get("kind") == "CallExpr" and id(a) in self.ghost_of:
+                            # `return f (args);` with f an effect: the arguments are ghost outputs, the value is f_ret
+                            pre = self.ghost_of[id(a)]
+                            pairs = [(pre + "_called", c2g.E("1", "Z", True))] if self.effect_called else []
+                            pairs += [("%s_arg%d" % (pre, k), self.expr(x, env)) for k, x in enumerate(a["inner"][1:])]
+                            retp = c2g.E(self.lookup(env, pre + "_ret"), "Z", True)
+                            return self.ghost_assign(pairs, env, [], dict(K, fin=lambda e2: K["ret"](retp, e2)))
+                return super().stmts(ss, env, K)
+
+        allf = c2g.clang_ast(f, "sc_MPI_", incs(tmp))
+        KF = {"sc_mpi_sizeof": ("sc_mpi_sizeof", False)}
+
+        def body_of(name):
+            F = c2g.find_function(allf, name)
+            return [c for c in F["inner"] if c.get("kind") == "CompoundStmt"][0].get("inner", [])
+
+        def block(name, gname, outputs, const_index=False, track_abort=False, **kw):
+            saved = sl.SliceT
+            sl.SliceT = S16
+            S16.const_index = const_index
+            S16.track_abort = track_abort
+            if track_abort:
+                kw["init"] = dict(kw.get("init") or {}, ok="1")
+            try:
+                t, i = sl.emit_block(body_of(name), gname, outputs, name, ret="ret", known_funcs=KF, **kw)
+            finally:
+                sl.SliceT = saved
+            g.add(t, i)
+            return i
+
+        MC = dict(effects=("memcpy",), effect_called=True)
+        block("sc_MPI_Gather", "stub_gather", ["*ghosts", "ret"], params=("p", "np", "tp", "q"), want_params=["p", "np", "tp", "q"], **MC)
+        block("sc_MPI_Gatherv", "stub_gatherv", ["*ghosts", "ret"], params=("p", "np", "tp", "q", "displ_0", "tq"),
+              want_params=["p", "np", "tp", "q", "displ_0", "tq"], const_index=True, comment="displ_0 = displ[0]", **MC)
+        block("sc_MPI_Reduce", "stub_reduce", ["*ghosts", "ret"], params=("p", "q", "n", "t"), want_params=["p", "q", "n", "t"], **MC)
+        for name, callee, want in (("sc_MPI_Allgather", "sc_MPI_Gather", ["p", "np", "tp", "q", "nq", "tq", "comm"]),
+                                   ("sc_MPI_Alltoall", "sc_MPI_Gather", ["p", "np", "tp", "q", "nq", "tq", "comm"]),
+                                   ("sc_MPI_Allgatherv", "sc_MPI_Gatherv", ["p", "np", "tp", "q", "recvc", "displ", "tq", "comm"]),
+                                   ("sc_MPI_Allreduce", "sc_MPI_Reduce", ["p", "q", "n", "t", "op", "comm"]),
+                                   ("sc_MPI_Reduce_scatter_block", "sc_MPI_Reduce", ["p", "q", "n", "t", "op", "comm"]),
+                                   ("sc_MPI_Scan", "sc_MPI_Reduce", ["sendbuf", "recvbuf", "count", "datatype", "op", "comm"])):
+            block(name, "stub_" + name[7:].lower(), ["*ghosts", "ret"], params=tuple(want), want_params=want + [callee + "_ret"],
+                  effects=(callee, "memcpy"), effect_called=True)
+        for name in ("sc_MPI_Exscan", "sc_MPI_Bcast", "sc_MPI_Barrier"):
+            block(name, "stub_" + name[7:].lower(), ["*ghosts", "ret"], want_params=[], **MC)
+        block("sc_MPI_Type_size", "stub_type_size", ["size_deref", "ret"], want_params=["datatype"])
+        block("sc_MPI_Pack_size", "stub_pack_size", ["*ghosts", "size_deref", "ret"], params=("incount", "datatype", "size"),
+              want_params=["incount", "datatype", "size", "size_deref", "sc_MPI_Type_size_ret"],
+              effects=("sc_MPI_Type_size",), effect_called=True, clobbers={"sc_MPI_Type_size": ("size_deref",)},
+              comment="size_deref = what sc_MPI_Type_size stored through the pointer `size` (its second argument)")
+        block("sc_MPI_Pack", "stub_pack", ["*ghosts", "position_deref", "ret"], params=("inbuf", "incount", "datatype", "outbuf", "outsize", "position_deref", "comm"),
+              want_params=["inbuf", "incount", "datatype", "outbuf", "outsize", "position_deref", "comm", "size", "sc_MPI_Pack_size_ret"],
+              effects=("sc_MPI_Pack_size", "memcpy"), effect_called=True,
+              comment="size = what sc_MPI_Pack_size stored through &size")
+        block("sc_MPI_Unpack", "stub_unpack", ["*ghosts", "position_deref", "ret"], params=("inbuf", "insize", "position_deref", "outbuf", "outcount", "datatype", "comm"),
+              want_params=["inbuf", "insize", "position_deref", "outbuf", "outcount", "datatype", "comm", "size", "sc_MPI_Pack_size_ret"],
+              effects=("sc_MPI_Pack_size", "memcpy"), effect_called=True,
+              comment="size = what sc_MPI_Pack_size stored through &size")
+        for name, out in (("sc_MPI_Comm_size", "size_deref"), ("sc_MPI_Comm_rank", "rank_deref"), ("sc_MPI_Group_size", "size_deref"),
+                          ("sc_MPI_Group_rank", "rank_deref"), ("sc_MPI_Comm_free", "comm_deref"), ("sc_MPI_Comm_group", "group_deref"),
+                          ("sc_MPI_Group_free", "group_deref")):
+            block(name, "stub_" + name[7:].lower(), [out, "ret"], want_params=[])
+        block("sc_MPI_Comm_dup", "stub_comm_dup", ["newcomm_deref", "ret"], want_params=["comm"])
+        block("sc_MPI_Comm_split", "stub_comm_split", ["newcomm_deref", "ret"], want_params=["comm"])
+        block("sc_MPI_Init_thread", "stub_init_thread", ["provided_deref", "ret"], params=("provided", "provided_deref"), want_params=["provided", "provided_deref"])
+        # completion calls: SC_CHECK_ABORT (c, ..) is tracked in the ghost output `ok` (1 = no abort so far)
+        block("sc_MPI_Wait", "stub_wait", ["ok", "ret"], params=("request_deref",), want_params=["request_deref"], track_abort=True)
+        for name, cnt, out in (("sc_MPI_Waitall", "count", None), ("sc_MPI_Testall", "count", "flag_deref"), ("sc_MPI_Waitsome", "incount", "outcount_deref")):
+            block(name, "stub_" + name[7:].lower(), ["ok"] + ([out] if out else []) + ["ret"], params=(cnt,) + ((out,) if out else ()),
+                  want_params=[cnt] + ([out] if out else []), array_reads=("array_of_requests",), track_abort=True,
+                  comment="array_of_requests i = the i-th request; ok = 1 iff no SC_CHECK_ABORT fired")
+        block("sc_MPI_Error_class", "stub_error_class", ["errorclass_deref", "ret"], params=("errorcode", "errorclass", "errorclass_deref"),
+              want_params=["errorcode", "errorclass", "errorclass_deref"])
+        i = block("sc_MPI_Error_string", "stub_error_string", ["*ghosts", "resultlen_deref", "ret"], params=("errorcode", "string", "resultlen", "resultlen_deref"),
+                  want_params=["errorcode", "string", "resultlen", "resultlen_deref", "snprintf_ret"], effects=("snprintf",), effect_called=True,
+                  comment="a string literal is 1 + its index in stub_strings; snprintf_arg3 = the message, snprintf_ret = what snprintf returns")
+        def coqstr(v):
+            return "[%s]" % "; ".join(str(b) for b in v.encode("latin-1"))
+        g.add("Definition stub_strings : list (list Z) :=\n  [%s].\n" % ";\n   ".join(coqstr(v) for v in strings), dict(name="stub_strings", n=len(strings)))
+        # the numbers of the enumerators that occur in the slices (printed by a program compiled against the same headers)
+        have = set(re.findall(r"Definition (dt_\w+) ", out))
+        need = sorted(e for e in used_enums if "dt_" + e not in have)
+        if need:
+            src = os.path.join(tmp, "enums_c16.c")
+            open(src, "w").write("#include <stdio.h>\n#include <sc_config.h>\n#include <sc_mpi.h>\nint main (void) {\n" +
+                                 "".join('  printf ("Definition dt_%s : Z := %%ld.\\n", (long) (%s));\n' % (e, e) for e in need) + "  return 0;\n}\n")
+            exe2 = os.path.join(tmp, "enums_c16")
+            p = subprocess.run(["gcc", "-w"] + ["-I" + x for x in incs(tmp)] + [src, "-o", exe2], stdout=subprocess.PIPE, stderr=subprocess.STDOUT)
+            if p.returncode != 0:
+                raise c2g.Unsupported("enumerator program does not compile: " + p.stdout.decode()[-400:])
+            out2 = subprocess.run([exe2], stdout=subprocess.PIPE).stdout.decode()
+            g.text = g.text.replace("Definition sizeof_aborts", out2 + "Definition sizeof_aborts", 1)
         return g, [f, os.path.join(REPO, "src", "sc_mpi.h"), os.path.join(REPO, "src", "sc3_mpi_types.h"), w]
 
     GROUPS["MpiC16"] = gen
